@@ -283,11 +283,18 @@ func c13(c *Ctx) {
 			n := cfgx.CalleeName(x)
 			if strings.HasSuffix(n, ".Watch") || n == "(*"+xp+"internal/engine.StoppableSource).Stop" {
 				actions = append(actions, x)
-				held := locks.None
+				held := locks.W
+				seenCall := false
 				for _, cu := range r.Calls {
 					if cu.Call == x {
-						held = cu.Held["engine.controller.mx"]
+						seenCall = true
+						if m := cu.Held["engine.controller.mx"]; m < held {
+							held = m // weakest over all paths reaching the call
+						}
 					}
+				}
+				if !seenCall {
+					held = locks.None
 				}
 				c.R.Check(held == locks.W, site(x)+" under-write-lock", c.pos(x.Pos()), "called with controller.mx write-held", "a watch is started/stopped without the controller write lock")
 			}
@@ -394,6 +401,44 @@ func c13(c *Ctx) {
 			c.R.Check(!by1 && len(existsT) > 0, load.FuncName(fn)+": fast path skips only existing watches", c.pos(rl.Pos()), "an iteration continues only over watchExists==true", "the pre-check can skip a watch that does not exist", w1...)
 			by2, w2 := cfgx.LoopBypass(loop, nil, activeT, c.posf())
 			c.R.Check(!by2 && len(activeT) > 0, load.FuncName(fn)+": fast path skips only active informers", c.pos(rl.Pos()), "an iteration continues only over activeInformer[gvk]==true", "the pre-check skips a watch whose informer is not active: StartWatches returns without restarting it", w2...)
+		}
+	}
+
+	c.R.Rule("R13.10", "informer tracking is atomic with the wrapped cache: every call into the embedded cache is made with InformerTrackingCache.mx held", 5,
+		"between marking an informer (in)active and the wrapped cache acting on it another goroutine sees the wrong state: a StartWatches that runs while an informer is being removed registers its handler on the informer that is about to be dropped and is never re-established")
+	{
+		n := 0
+		for _, f := range c.P.PkgFunctions("internal/engine") {
+			if !strings.HasPrefix(load.FuncName(f), "(*internal/engine.InformerTrackingCache).") {
+				continue
+			}
+			r := w.res[f]
+			if r == nil {
+				continue
+			}
+			for _, x := range cfgx.Calls(f, nil) {
+				if !x.Common().IsInvoke() || !strings.HasPrefix(cfgx.CalleeName(x), "(sigs.k8s.io/controller-runtime/pkg/cache.") {
+					continue
+				}
+				if _, isDefer := x.(*ssa.Defer); isDefer {
+					continue
+				}
+				n++
+				weakest := locks.W
+				seenCall := false
+				for _, cu := range r.Calls {
+					if cu.Call == x {
+						seenCall = true
+						if m := cu.Held["engine.InformerTrackingCache.mx"]; m < weakest {
+							weakest = m
+						}
+					}
+				}
+				c.R.Check(seenCall && weakest != locks.None, site(x)+" under-mx", c.pos(x.Pos()), "the wrapped cache is called with the tracking lock held", "the wrapped cache is called without InformerTrackingCache.mx: the active set and the informers can be observed out of step")
+			}
+		}
+		if n < 5 {
+			c.R.Unknown("InformerTrackingCache: wrapped calls", "", "expected the Get/List/GetInformer/GetInformerForKind/RemoveInformer calls into the embedded cache")
 		}
 	}
 
